@@ -7,6 +7,7 @@ use crate::util::*;
 use std::collections::{BTreeMap, HashMap};
 use std::sync::{Arc, Weak};
 use vm_memory::atomic::{GuestMemoryExclusiveGuard, GuestMemoryLoadGuard};
+#[cfg(not(feature = "xen"))]
 use vm_memory::mmap::MmapRegionBuilder;
 use vm_memory::{Bytes, GuestAddress, GuestAddressSpace, GuestMemory, GuestMemoryAtomic, GuestMemoryMmap, GuestMemoryRegion, GuestRegionMmap};
 
@@ -14,9 +15,20 @@ type Map = GuestMemoryMmap<()>;
 
 /// every third map does not own its page (it is wrapped around a page of the harness's own that is never unmapped), so
 /// that another map may later be wrapped around the very same host memory — see `alias_of`
+#[cfg(not(feature = "xen"))]
 fn is_raw(id: u64) -> bool {
     id % 3 == 0
 }
+// (the Xen build has no raw-pointer regions; this world is only run in the standard build)
+#[cfg(feature = "xen")]
+fn is_raw(_id: u64) -> bool {
+    false
+}
+#[cfg(feature = "xen")]
+fn raw_map(_id: u64, _page: *mut u8) -> Map {
+    unreachable!()
+}
+#[cfg(not(feature = "xen"))]
 fn raw_map(id: u64, page: *mut u8) -> Map {
     let r = unsafe { MmapRegionBuilder::<()>::new(0x1000).with_raw_mmap_pointer(page).with_mmap_prot(libc::PROT_READ | libc::PROT_WRITE).with_mmap_flags(libc::MAP_ANONYMOUS | libc::MAP_PRIVATE).build() }.unwrap();
     Map::from_regions(vec![GuestRegionMmap::new(r, GuestAddress((id % 2) * 0x1000)).unwrap()]).unwrap()
